@@ -336,6 +336,11 @@ class OperandNode(ASTNode):
             value = value.replace('\n', r'\n').replace('\r', r'\r')
             return f'"{value}"'
 
+        elif self.subtype == self.token.NUMBER and len(self.value) > 1:
+            # python does not allow the leading zeros that excel does
+            value = self.value.lstrip('0')
+            return value if value[:1].isdigit() else '0' + value
+
         else:
             return self.value
 
